@@ -57,7 +57,8 @@ def gen_cases(rng, tier, info):
         summ = [(2, 30, "T"), (4, 30, "Ann")] + ([(0, 0, None)] if j % 2 == 0 else [])     # every other file has no code page property
         clsid, entries, _ = msienc.encode_db(rng, j % 3, 65001, tables, summ, {"Bin": [1, 2, 3]},
                                              long_refs=(j % 2 == 1), holes=0.3, dups=0.3, overcount=0.3, stale=0.5,
-                                             validation=(j % 4 != 3), layout=["plain", "shuffled", "gaps"][j % 3])
+                                             validation=(j % 4 != 3), layout=["plain", "shuffled", "gaps"][j % 3],
+                                             ragged=(("T",) if j % 3 == 1 else ("U", "T") if j % 6 == 2 else ()))
         cmds = [msienc.enc_open_raw(clsid, entries)]
         for m in MODES + MODES:
             cmds.append("(readonly_session %s)" % m)
